@@ -20,7 +20,7 @@ RULE = ("random histories (<= 25 container ops after a set-up prefix) over 2-4 n
         "namespaces, both import strategies; the taxon_namespace property setter on Tree/TreeList/CharacterMatrix (with "
         "automigrate_taxon_namespace_on_assignment, and plain followed by update_taxon_namespace()), CharacterMatrix add/replace/update/"
         "extend_sequences/extend_matrix with a matrix of the same or another namespace (the refusal is compared), purge_taxon_namespace of an "
-        "object that is the only user of its namespace, positions also written as negative indices and pop() without argument; thorough adds every depth<=3 history over a fixed small world; "
+        "object that is the only user of its namespace, slice assignment from a one-shot generator, positions also written as negative indices and pop() without argument; thorough adds every depth<=3 history over a fixed small world; "
         "non-trivial = at least two namespaces are involved in a migrating/cloning/reading step")
 MODELLED_NOT_VERIFIED = [
     "C11: the Lean store model (namespaces = ordered member lists + case flag; trees = namespace ref + pre-order taxon refs; matrices = "
@@ -51,7 +51,10 @@ EXPLANATION = ("Theorems (Props/C11.lean + Theory/C11Fresh.lean + Theory/C11Pass
                "(trees pairwise different objects), migrateTl_same_taxon_iff; unify_taxa_by_label=False over WHOLE passes: mapTaxa_fresh_spec, "
                "migrateTree_fresh_spec, migrateTl_fresh_spec, migrateTl_fresh_reachable (members kept, every foreign taxon on a taxon created by the "
                "pass with the same label, and two nodes anywhere in the list share a taxon afterwards iff they shared one before - full form of "
-               "unify_false_distinct_partial, which is kept); every copy route: cloneMemo_spec, cloneTree_spec; the driver's own "
+               "unify_false_distinct_partial, which is kept); mapTaxa_fresh_memo_spec (the same for ANY caller-supplied memo satisfying the pass "
+               "invariant PassF, entries already in the memo are reused), chain_fresh_spec (two tree migrations sharing one memo: the second meets a "
+               "non-empty memo); setslice_any_length (tl[a:b]=trees for any bounds and operand length: the list is old[:a]+trees+old[max a b:], EVERY "
+               "operand tree is bound to the list's namespace), setslice_generator (a one-shot iterable: trees imported, slice deleted); every copy route: cloneMemo_spec, cloneTree_spec; the driver's own "
                "run: runG_eq_run, closed_reachable_driver, fresh_stepG; "
                "resolved_member_label, same_taxon_iff_equal_labels, mapTaxa_shape; matrices: mapKeys_unify_spec, migrateMat_ok_closed, "
                "migrateMat_refused_state (the known finding's state, precisely; mapKeys_unify_spec is the soundness direction only); "
@@ -63,8 +66,10 @@ EXPLANATION = ("Theorems (Props/C11.lean + Theory/C11Fresh.lean + Theory/C11Pass
                "migrations sharing a caller-supplied memo: covered by closed_step / fresh_step; tie-A bridges importTree_bridge, "
                "importDefault_bridge, mapOne_guard_bridge, mapKeys_guard_bridge, setter_bridge, shared_memo_bridge (the regenerated kernels of "
                "Gen/C11Kernels.lean are what the model hard-wires); migrate_*_partial (single resolutions). Not proved: Nodup of matrix key "
-               "lists and of tree lists as history invariants (hypotheses of the whole-pass theorems); non-unifying passes with a caller-supplied "
-               "non-empty memo (chain) beyond closure/freshness; the readers' table as the dictionary label_taxon_map() builds (modelled as a "
+               "lists as a history invariant and the whole-pass theorems for a tree object listed twice (tree lists may legitimately hold one "
+               "tree twice, so Nodup stays a hypothesis there); non-unifying chains across DIFFERENT target namespaces beyond closure/freshness; "
+               "DataSet.unify after an out-of-band migration is covered by closed_step (an example history is checked), with no separate "
+               "statement of the final attachment; the readers' table as the dictionary label_taxon_map() builds (modelled as a "
                "reverse search).")
 
 LABEL_POOL = ["A", "B", "C", "D", "a", "b", "E", "Ab", "AB", "c_1", "x y", "'q'", "E", "A"]
@@ -314,6 +319,9 @@ def apply_op(w, op):
                 w.reg_tree(t)
         else:
             tl[op[2]:op[3]] = [w.trees[t] for t in op[5]]
+    elif k == "setslicegen":
+        # a one-shot iterable as the operand: consumed by the import pass, nothing is left for the assignment
+        w.lists[op[1]][op[2]:op[3]] = (w.trees[t] for t in op[4])
     elif k in ("extend", "iadd"):
         tl = w.lists[op[1]]
         other = w.lists[op[3]] if op[2] == "L" else [w.trees[t] for t in op[3]]
@@ -620,6 +628,8 @@ def enc_op(op):
         return ["setitem", str(op[1]), str(op[2]), str(op[3])]
     if k == "setslice":
         return ["setslice", str(op[1]), str(op[2]), str(op[3]), op[4], str(op[5]) if op[4] == "L" else ilist(op[5])]
+    if k == "setslicegen":
+        return ["setslicegen", str(op[1]), str(op[2]), str(op[3]), ilist(op[4])]
     if k in ("extend", "iadd", "add"):
         return [k, str(op[1]), op[2], str(op[3]) if op[2] == "L" else ilist(op[3])]
     def hdocs(docs):
@@ -760,6 +770,11 @@ class Watch(object):
                 if t.taxon_namespace is not tl.taxon_namespace:
                     self.mode = "unify" if strat == "migrate" else "same"
                     self.before = [("t", t, tree_taxa(t))]
+            elif k == "setslicegen":
+                tl = L[op[1]]
+                self.target = tl.taxon_namespace
+                self.mode = "unify"
+                self.before = [("t", t, tree_taxa(t)) for t in [w.trees[i] for i in op[4]] if t.taxon_namespace is not tl.taxon_namespace]
             elif k in ("setslice", "extend", "iadd", "add"):
                 tl = L[op[1]]
                 self.target = tl.taxon_namespace
@@ -1406,6 +1421,8 @@ def random_op(rng, w, allow_known=False):
         if k == "setslice":
             a = rng.randint(0, len(tl))
             b = rng.randint(a, len(tl))
+            if kind == "t" and rng.random() < 0.3:
+                return ["setslicegen", L, a, b, arg]          # the same trees handed over as a generator
             return ["setslice", L, a, b, kind, arg]
         return [k, L, kind, arg]
     def gen_docs(schema):
@@ -1618,7 +1635,8 @@ def small_ops():
         ops.append(["lclone", L, 2])
         ops.append(["dsadd", 0, "l", L])
     ops += [["tassign", 1, 0, 1], ["tassign", 1, 2, 0], ["lassign", 0, 2, 0], ["lassign", 1, 0, 1], ["massign", 0, 0, 1], ["massign", 0, 2, 0],
-            ["mcomb", 0, 0, "update_sequences"], ["lpurge", 1], ["setitem", 0, 0, 1, "neg"]]
+            ["mcomb", 0, 0, "update_sequences"], ["lpurge", 1], ["setitem", 0, 0, 1, "neg"],
+            ["setslicegen", 0, 0, 1, [1]]]
     ops += [["treeseed", 0, 1, 1], ["tmig", 0, 1, 1], ["tmig", 1, 0, 1], ["tmig", 1, 2, 0], ["trec", 1, 1], ["tclone", 1, 0], ["mmig", 0, 0, 1], ["mmig", 0, 2, 1],
             ["mrec", 0, 1], ["mclone", 0, 0], ["mset", 0, 1, 0], ["mnew", 0, 1, 0], ["dsadd", 0, "m", 0], ["dsnewlist", 0], ["dsattach", 0, 0],
             ["dsattach", 0, 2], ["dsdetach", 0], ["dsunify", 0, None], ["dsunify", 0, 2], ["dsread", 0, ["A", "a", "D"], ["A", "D"], [["a", "D"]]]]
@@ -1641,6 +1659,9 @@ def op_in_domain(w, op):
             if kind == "L":
                 return arg < len(w.lists)
             return all(tree_rebind_ok(w, w.trees[t], tl.taxon_namespace, tl if k != "add" else None) for t in arg)
+        if k == "setslicegen":
+            tl = w.lists[op[1]]
+            return all(tree_rebind_ok(w, w.trees[t], tl.taxon_namespace, tl) for t in op[4])
         if k == "pop":
             return len(w.lists[op[1]]) > op[2]
         if k == "newtree":
@@ -1735,6 +1756,15 @@ TARGETED = [
     _world(["append", 1, 0, "migrate"], ["tlist", 1], ["append", 2, 1, "migrate"], ["dsadd", 0, "l", 1], ["dsadd", 0, "l", 2], ["dsunify", 0, None]),
     _world(["mcomb", 0, 0, "update_sequences"]), _world(["mat", 0, [0]], ["mcomb", 0, 1, "add_sequences"]), _world(["mat", 1, [0]], ["mcomb", 1, 0, "extend_matrix"]),
     _world(["append", 1, 0, "migrate"], ["lpurge", 1]),
+    # slice assignment with a longer / shorter / empty / one-shot operand
+    _world(["append", 0, 1, "migrate"], ["setslice", 0, 0, 1, "t", [0, 1]]), _world(["append", 0, 1, "migrate"], ["setslice", 0, 1, 1, "t", [0]]),
+    _world(["append", 0, 1, "migrate"], ["append", 0, 0, "migrate"], ["setslice", 0, 0, 2, "t", [1]]),
+    _world(["append", 0, 1, "migrate"], ["setslice", 0, 0, 1, "t", []]), _world(["append", 0, 1, "migrate"], ["setslicegen", 0, 0, 1, [0]]),
+    _world(["append", 1, 0, "migrate"], ["append", 1, 1, "migrate"], ["setslice", 0, 0, 0, "L", 1]),
+    # DataSet.unify_taxon_namespaces after a component was migrated behind the data set's back (its namespace list is stale)
+    _world(["append", 1, 0, "migrate"], ["dsadd", 0, "l", 1], ["lmig", 1, 2, 1], ["dsunify", 0, None]),
+    _world(["append", 1, 0, "migrate"], ["dsadd", 0, "l", 1], ["lmig", 1, 2, 1], ["dsunify", 0, 1]),
+    _world(["dsadd", 0, "m", 0], ["mmig", 0, 2, 1], ["dsunify", 0, None]),
 ]
 
 
